@@ -239,6 +239,10 @@ namespace xv
         int witness_type = 0;
         std::vector<uint64_t> witness_vals, witness_vals2, witness_lattice;
         uint64_t wit_a = 0, wit_b = 0, wit_c = 0; // number of batches per section
+        int placement_L = 0; // C13: pairs of batches [subject in lane k among companions][broadcast of the subject]
+        std::vector<std::vector<uint64_t>> place_subj; // subject tuples (one value per operand)
+        std::vector<std::vector<uint64_t>> place_comp; // companion values per operand
+        uint64_t place_nc = 0;
         int mask_kind = 0; // Boolean operands generated from 64-bit mask words, one word per 64 stream positions
         uint64_t mask_groups = 0;
         static inline uint64_t rev16(uint64_t x)
@@ -316,6 +320,18 @@ namespace xv
                 ntuples = mask_groups;
                 shifts = 1;
                 stride = mask_groups * 64;
+                return;
+            }
+            if (placement_L)
+            {
+                place_nc = 1;
+                for (auto& c : place_comp)
+                    if (c.size() + 1 > place_nc)
+                        place_nc = c.size() + 1;
+                ntuples = place_subj.size() * (uint64_t)placement_L * place_nc; // (subject, lane, companion class) triples
+                shifts = 1;
+                stride = ntuples * 2 * (uint64_t)placement_L;
+                stride = (stride + 63) & ~63ull;
                 return;
             }
             if (order.empty())
@@ -414,6 +430,25 @@ namespace xv
             if (witness_L)
             {
                 vals[0] = decode_witness(p);
+                return;
+            }
+            if (placement_L)
+            {
+                const uint64_t L = (uint64_t)placement_L;
+                const uint64_t pair = (p / (2 * L)) % ntuples, ee = p % (2 * L);
+                const bool placed = ee < L;
+                const uint64_t lane = ee % L;
+                const uint64_t k = pair % L, c = (pair / L) % place_nc, s = pair / (L * place_nc);
+                for (size_t o = 0; o < al.size(); ++o)
+                {
+                    if (!placed || lane == k)
+                        vals[o] = place_subj[s][o];
+                    else
+                    {
+                        const auto& C = place_comp[o];
+                        vals[o] = c + 1 < place_nc ? C[c % C.size()] : C[(lane + k) % C.size()];
+                    }
+                }
                 return;
             }
             uint64_t k = p / stride, q = p % stride;
@@ -658,6 +693,93 @@ namespace xv
             Buf in[4], san[4], e1[2], e2[2], out[2], flags;
         };
 
+        // C13 for the exact operations: lane k of op(placed batch) must be bit-identical to lane 0 of op(broadcast batch),
+        // and all lanes of the broadcast result identical.
+        void run_placement(Scratch&, Group& G, OpInst& O, const void* const* use_in, void* const* out, size_t n, uint64_t start)
+        {
+            const xv_op& sig = G.sig;
+            const size_t L = (size_t)G.sp.placement_L;
+            for (size_t ii = 0; ii < O.impls.size(); ++ii)
+            {
+                Impl& im = O.impls[ii];
+                if (O.saturated[ii] || (size_t)im.op->lanes != L)
+                    continue;
+                xv_ctx ctx;
+                memset(&ctx, 0, sizeof ctx);
+                ctx.param = O.param;
+                ctx.aborted_at = -1;
+                im.op->fn(use_in, out, n, &ctx);
+                uint64_t cmp = 0;
+                for (size_t base = 0; base + 2 * L <= n; base += 2 * L)
+                {
+                    // position of this pair in the stream decides the subject lane
+                    for (int o = 0; o < sig.nout; ++o)
+                    {
+                        const int ot = sig.out_t[o];
+                        const size_t osz = (size_t)xv_type_size[ot];
+                        const char* ob = (const char*)out[o];
+                        const uint64_t ref0 = load_bits(ob + (base + L) * osz, (int)osz);
+                        {
+                            uint64_t hsh = mix64(ref0 + 0x1234567) & 1023;
+                            O.outbits[hsh >> 6] |= 1ull << (hsh & 63);
+                        }
+                        for (size_t l = 0; l < L; ++l)
+                        {
+                            // broadcast batch: all lanes equal; placed batch: only the subject lane is judged
+                            const uint64_t bl = load_bits(ob + (base + L + l) * osz, (int)osz);
+                            bool ok = bl == ref0 || (is_fp_type(ot) && bits_is_nan(bl, ot) && bits_is_nan(ref0, ot));
+                            ++cmp;
+                            if (!ok)
+                                report_placement(G, O, ii, use_in, base + L, l, o, ref0, bl, "broadcast batch: lane differs from lane 0");
+                        }
+                        // the subject lane of the placed batch (its index follows from the stream position of the pair)
+                        const uint64_t pair = ((start + base) / (2 * L)) % G.sp.ntuples;
+                        const size_t k = (size_t)(pair % L);
+                        const uint64_t pk = load_bits(ob + (base + k) * osz, (int)osz);
+                        bool ok = pk == ref0 || (is_fp_type(ot) && bits_is_nan(pk, ot) && bits_is_nan(ref0, ot));
+                        ++cmp;
+                        if (!ok)
+                            report_placement(G, O, ii, use_in, base, k, o, ref0, pk, "subject lane among companions differs from the broadcast result");
+                    }
+                }
+                O.compared += cmp;
+                O.points += n;
+            }
+        }
+        void report_placement(Group& G, OpInst& O, size_t ii, const void* const* use_in, size_t b0, size_t lane, int o, uint64_t expected, uint64_t observed, const char* why)
+        {
+            const xv_op& sig = G.sig;
+            Impl& im = O.impls[ii];
+            uint64_t cnt = ++O.vc[ii * O.nslots + 0];
+            if (cnt > 4096)
+                O.saturated[ii] = 1;
+            if (cnt > 2)
+                return;
+            Violation v;
+            v.prop = O.prop;
+            v.op = O.name;
+            v.arch = mods[(size_t)im.module].arch;
+            v.oracle = "lane k of op(X) versus lane 0 of op(broadcast(X[k])) (C13)";
+            v.note = why;
+            v.elem = sig.elem;
+            v.lanes = im.op->lanes;
+            v.lane = (int)lane;
+            v.out_slot = o;
+            v.out_type = sig.out_t[o];
+            v.param = O.param;
+            v.nin = sig.nin;
+            for (int k = 0; k < sig.nin; ++k)
+            {
+                v.in_t[k] = sig.in_t[k];
+                int sz = xv_type_size[sig.in_t[k]];
+                for (int l = 0; l < v.lanes; ++l)
+                    v.in[k].push_back(load_bits((const char*)use_in[k] + (b0 + (size_t)l) * (size_t)sz, sz));
+            }
+            v.expected = expected;
+            v.observed = observed;
+            log.add_detailed(std::move(v));
+        }
+
         void run_block(Scratch& S, Group& G, uint64_t blk)
         {
             const xv_op& sig = G.sig;
@@ -713,6 +835,11 @@ namespace xv
                     }
                     SanArgs sa { &sig, sin, n, O.param };
                     san(sa);
+                }
+                if (G.sp.placement_L)
+                {
+                    run_placement(S, G, O, use_in, out, n, start);
+                    continue;
                 }
                 int ref_lanes = O.impls.empty() ? 1 : O.impls.front().op->lanes;
                 RefArgs ra { &sig, use_in, e1, e2, flags, n, O.param, ref_lanes };
